@@ -159,6 +159,10 @@ func (E *Engine) entryState(c *fnCtx, suffix string) *State {
 	st.assume(facts...)
 	c.entryHeap = st.heap // alias: lazily created H0 constants are shared
 	st.heap = copyHeap(st.heap)
+	// type invariants of the objects handed in
+	for _, p := range fn.Params {
+		E.assumeTypeInvs(st, st.regs[p])
+	}
 	// requires
 	for _, cl := range c.spec.Requires {
 		ev := E.cenvFor(st, c, cl.Ctx)
@@ -421,6 +425,20 @@ func (E *Engine) loopEnter(st *State, li *loopInfo, from *ssa.BasicBlock) bool {
 		st.assume(facts...)
 		if phi.Comment != "" {
 			st.env[phi.Comment] = nv
+		}
+	}
+	// map iterators advanced in this loop: their visited sets are loop-carried ghosts
+	for blk := range li.Body {
+		for _, in := range blk.Instrs {
+			if nx, ok := in.(*ssa.Next); ok && !nx.IsString {
+				if itv, ok2 := st.regs[nx.Iter]; ok2 && itv != nil {
+					if it := E.iters[itv.S]; it != nil && it.m != nil {
+						_, ks, _ := E.mapInfo(it.m.T)
+						st.ghost["visited:"+itv.S] = E.freshConst("visited", fmt.Sprintf("(Array %s Bool)", ks))
+						st.ghost["loopiter:"+fmt.Sprint(li.Ordinal)] = itv.S
+					}
+				}
+			}
 		}
 	}
 	var ws []string
